@@ -6,6 +6,7 @@ static struct cmd cmds[] = {
   {"c11", cmd_c11},
   {"c10", cmd_c10},
   {"c15", cmd_c15},
+  {"c14", cmd_c14},
   {NULL, NULL}
 };
 int main(int argc, char **argv) {
